@@ -1054,6 +1054,12 @@ func (ex *Exec) appendSlice(st *State, fr *Frame, s T, e T, et types.Type, in ss
 	// the solvers need 25 s and more to rediscover it inside a query): the source index stays inside the source
 	st.cmds = append(st.cmds, fmt.Sprintf("(assert (forall ((%s (_ BitVec 64))) (! (=> %s (and (bvsle %s %s) (bvslt %s (bvadd %s %s)))) :pattern ((select %s %s)))))",
 		j.S, inNew.S, SlOff(e).S, srcIdx.S, srcIdx.S, SlOff(e).S, n.S, na.S, j.S))
+	// ... and is strictly monotone in the position (lemmas/append_index_mono.smt2)
+	j2 := T{j.S + "b", BV(64)}
+	inNew2 := And(bvCmp("bvsle", base, j2), bvCmp("bvslt", j2, bvBin("bvadd", base, n)))
+	srcIdx2 := bvBin("bvadd", SlOff(e), bvBin("bvsub", j2, base))
+	st.cmds = append(st.cmds, fmt.Sprintf("(assert (forall ((%s (_ BitVec 64)) (%s (_ BitVec 64))) (! (=> (and %s %s (bvslt %s %s)) (bvslt %s %s)) :pattern ((select %s %s) (select %s %s)))))",
+		j.S, j2.S, inNew.S, inNew2.S, j.S, j2.S, srcIdx.S, srcIdx2.S, na.S, j.S, na.S, j2.S))
 	emit(And(Not(inNew), fits), Select(oldArr, j))
 	emit(And(Not(inNew), Not(fits), inOld), Select(oldArr, bvBin("bvadd", SlOff(s), bvBin("bvsub", j, resOff))))
 	emit(And(Not(inNew), Not(fits), Not(inOld)), c.ZeroOfSort(es))
